@@ -325,3 +325,49 @@ func verifH_C12_discriminator() {
 	verifModes(s, v, "discriminator")
 	verifReach("end")
 }
+
+//verif:harness id=C12 tier=quick,thorough witness=end bounds="schemas with (almost) nothing in them: {}, {nullable: true}, {description}, {type string, nullable}, {enum [null]} x value null / 1.5 / a / true / [] / {}; all 5 modes and IsMatching agree; the typed matching helpers (IsMatchingJSONBoolean / Number / String / Array / Object) agree with VisitJSON on values of their type"
+func verifH_C12_null_and_empty() {
+	var s *Schema
+	switch verifChoose("schema", 5) {
+	case 0:
+		s = &Schema{}
+	case 1:
+		s = &Schema{Nullable: true}
+	case 2:
+		s = &Schema{Description: "d"}
+	case 3:
+		s = &Schema{Type: &Types{"string"}, Nullable: true}
+	case 4:
+		s = &Schema{Enum: []any{nil}, Nullable: true}
+	}
+	var v any
+	vi := verifChoose("value", 6)
+	switch vi {
+	case 1:
+		v = 1.5
+	case 2:
+		v = "a"
+	case 3:
+		v = true
+	case 4:
+		v = []any{}
+	case 5:
+		v = map[string]any{}
+	}
+	verifModes(s, v, "null and empty")
+	ok := s.VisitJSON(v) == nil
+	switch x := v.(type) {
+	case float64:
+		verifAssert(s.IsMatchingJSONNumber(x) == ok, "C12 null and empty: IsMatchingJSONNumber equals the default verdict")
+	case string:
+		verifAssert(s.IsMatchingJSONString(x) == ok, "C12 null and empty: IsMatchingJSONString equals the default verdict")
+	case bool:
+		verifAssert(s.IsMatchingJSONBoolean(x) == ok, "C12 null and empty: IsMatchingJSONBoolean equals the default verdict")
+	case []any:
+		verifAssert(s.IsMatchingJSONArray(x) == ok, "C12 null and empty: IsMatchingJSONArray equals the default verdict")
+	case map[string]any:
+		verifAssert(s.IsMatchingJSONObject(x) == ok, "C12 null and empty: IsMatchingJSONObject equals the default verdict")
+	}
+	verifReach("end")
+}
